@@ -191,7 +191,8 @@ def handle (req : Json) : Json :=
   let dtcOk := !col.dtype.isStringNonObject || col.cells.all (fun x => x.null || x.isStr)
   let good := Json.mkObj [("good", Json.bool (Pd.goodB o col)), ("cells", Json.bool cellsOk), ("parsers", Json.bool strOk),
     ("dtypeCells", Json.bool dtcOk), ("dtypePay", Json.bool (Pd.dtypePayB col)), ("oracle", Json.bool (Pd.oracleB o col)),
-    ("excl16", Json.bool (Pd.excl16B col)), ("noRaise", Json.bool (Pd.noRaiseB o col))]
+    ("excl16", Json.bool (Pd.excl16B col)), ("noRaise", Json.bool (Pd.noRaiseB o col)),
+    ("guardsOk", Json.bool (Pd.guardsOkB o col))]
   Json.mkObj [("contains", Json.mkObj cont), ("rels", Json.arr relJ.toArray), ("trav", Json.arr trav.toArray), ("good", good)]
 
 end PdDrv
